@@ -144,7 +144,13 @@ def write_case(ctx, name, data, kind, mtime, rng):
         e2e.pack(data, kind, path, inner_name=name + '.log')
         os.utime(path, (mtime, mtime))
     else:
-        e2e.pack(data, kind, path, inner_name=name + '.log', mtime=mtime)
+        if kind == 'gz' and rng.chance(1, 2):
+            # a gzip header WITHOUT the optional FNAME field (`gzip -c < f > f.gz`, gzip.compress): MTIME must still be used
+            import gzip as _gz
+            with open(path, 'wb') as f:
+                f.write(_gz.compress(data, 6, mtime=mtime))
+        else:
+            e2e.pack(data, kind, path, inner_name=name + '.log', mtime=mtime)
         # gz / tar: the file's own mtime must NOT be what decides: put it in another year
         wrong = mtime + rng.pick([-3, -1, 1, 2]) * 366 * 86400
         wrong = min(max(wrong, 86400), 4102444800)
